@@ -18,6 +18,10 @@ var runePool = []rune{
 	0x023A, 0x2C65, 0x0130, 0x1E9E, 0x00DF,
 	// boundaries: of the Basic Latin table (U+007F / U+0080), of the UTF-8 lengths, of the surrogate gap, of Unicode
 	0x00, 0x7F, 0x80, 0x7FF, 0x800, 0xD7FF, 0xE000, 0xFFFF, 0x10000, 0x10FFFF,
+	// one or two runes of the general categories a reader might be tempted to treat specially (positions count runes,
+	// whatever they are): nonspacing / spacing / enclosing marks, variation selector, joiner, format characters, the
+	// other line and paragraph separators, spaces, controls, the byte order mark, an emoji modifier
+	0x0301, 0x0323, 0xFE0F, 0x0903, 0x20DD, 0x0E31, 0x200D, 0x200B, 0x2028, 0x2029, 0x0085, 0x00A0, 0x3000, '\r', '\t', 0xFEFF, 0x1F3FB,
 }
 
 // casePairs are runes that are interesting together under ignoreCase.
